@@ -444,7 +444,19 @@ func checkC10(r *vt.Run) {
 				}
 			}
 		}
-	}	// a replica that looks cured for a while after a repair attempt and then meets the same failing
+	}	// the master itself in a wrong state (read-only; semi-sync switched the wrong way with a wrong count)
+	// while the replicas and the published list are already consistent: a steady membership is no
+	// reason to leave the master alone
+	if r.Quick() {
+		for _, cf := range cfgs {
+			for _, ms := range []int{2, 3} {
+				for _, n2 := range few {
+					run(c10Case{Nodes: [2]c10Node{n2, healthy}, Master: ms, SemiSync: cf.semi, Aggressive: cf.aggr, MaxAttempts: cf.max})
+				}
+			}
+		}
+	}
+	// a replica that looks cured for a while after a repair attempt and then meets the same failing
 	// event again, its executed set never moving: every schedule of "meets the event in round i" up to
 	// the bound - the attempt limits hold per episode of an unchanged executed set
 	flap := c10Node{true, false, srcMaster, thSQLErrPersistent, true, 0}
